@@ -13,14 +13,21 @@ def warm():
 
 def gen(tier, seed):
     n = {"quick": 700, "thorough": 6000}[tier]
-    progs, stats = gen_prog.programs(seed * 1000003 + 3, n, max_depth=3, error_rate=0.05)
-    return progs, stats
+    kw = dict(max_depth=3, error_rate=0.05, features={"flat": 0.3})
+    progs, stats = gen_prog.programs(seed * 1000003 + 3, n, **kw)
+    # the same programs with every operator expression fully parenthesised: what C precedence and associativity say the first text means
+    twins, _ = gen_prog.programs(seed * 1000003 + 3, n, full_parens=True, **kw)
+    return progs, stats, twins
 
 
-def judge(c, progs, source):
-    raw = E.run_impl(progs, "raw")
+def judge(c, progs, source, twins=None):
+    raw = E.run_impl(twins or progs, "raw")
     opt = E.run_impl(progs, "opt")
     ok_idx = [i for i in range(len(progs)) if "tree" in raw[i] and "tree" in opt[i]]
+    for i in range(len(progs)):
+        if ("tree" in raw[i]) != ("tree" in opt[i]):
+            c.fail("a program and its fully parenthesised twin do not both parse", {"program": progs[i], "twin": (twins or progs)[i], "source": source,
+                                                                                   "observed": [raw[i].get("parse_error", "parsed")[:200], opt[i].get("parse_error", "parsed")[:200]]})
     ref = E.run_model("spec", [raw[i]["tree"] for i in ok_idx])
     mech = E.run_model("mech", [opt[i]["tree"] for i in ok_idx], hints=False)
     seen = set()
@@ -43,7 +50,8 @@ def judge(c, progs, source):
         c.cov["disagreements_checked"] += 1
         if impl_obs != ref_obs:
             c.fail("the implementation's output/result/error differs from the reference interpreter of the documented semantics",
-                   {"program": progs[i], "implementation": impl_obs, "reference": ref_obs, "source": source})
+                   {"program": progs[i], "implementation": impl_obs, "reference": ref_obs, "source": source,
+                    "reference_ran_on": (twins[i] if twins and twins[i] != progs[i] else "the same text")})
         # tie of the mechanism model on the optimised tree (what the engine really evaluates)
         if mech[k] is not None:
             mout, mres = E.split_model(mech[k])
@@ -64,14 +72,17 @@ def check(tier, seed):
                      "the model's supported subset; distinct = distinct program text")
     c.assumptions = ["the reference is the Coq evaluator Eval.v instantiated with the specification arithmetic (NumDefs.spec_row), run on the unoptimised tree dumped by harness/h_run",
                      "the tree reader (Ast.read_ast) is tied by a print/read round trip against the implementation's dump",
-                     "programs outside the model's supported subset are counted (unsupported_by_model) and not judged"]
+                     "programs outside the model's supported subset are counted (unsupported_by_model) and not judged",
+                     "C precedence and associativity: operator expressions are generated as trees and written with the fewest parentheses C allows; the reference evaluates the fully "
+                     "parenthesised twin of each program, so a parse that groups differently shows up as a different result or side-effect order"]
     c.prove("Properties_C03", translators=["NumTables", "OptOrder"])
     if E.bins().get("mech") is None:
         c.broken_ties.append(("correspondence", "eval: mechanism model does not build", E.bins().get("mech_err")))
     corpus = E.corpus("eval_core.txt")
     judge(c, corpus, "corpus")
-    progs, stats = gen(tier, seed)
-    raw, opt, ref = judge(c, progs, "generated")
+    progs, stats, twins = gen(tier, seed)
+    c.dist["programs_with_minimal_parentheses"] = sum(1 for a, b in zip(progs, twins) if a != b)
+    raw, opt, ref = judge(c, progs, "generated", twins)
     c.dist.update({"construct:" + k: v for k, v in stats.items()})
     for k in (0, len(progs) // 2, len(progs) - 1):
         c.sample({"program": progs[k][:600], "implementation": opt[k].get("res", opt[k].get("parse_error"))[:200]})
